@@ -214,6 +214,65 @@ def _bytes_shard(res, pi):
     res.sample({'kind': 'bytes', 'bytes': (BPREFIX[pi] + b'a{\xc3').hex(), 'encoding': None, 'entry': 'parseString'})
 
 
+# ---------------- (b2) every codec name Python knows, as @charset name and as encoding argument
+
+
+LONG_TOKENS = ['a{x:N}', 'a{x:N.5}', 'a{x:0.N}', 'a{x:-Npx}', 'a{x:1eE}', 'a{x:N%}', 'a{A:y}', 'a{x:"A"}', 'a{x:#A}', 'A{x:y}', 'a{x:\\Z41 }', 'a{x:url(A)}',
+               'a{x:A(1)}', '@A x;', 'a{x:U+N}', '@media A{a{x:y}}', 'a{x:y !A}', '/*A*/', 'a{x:rgb(N,N,N)}', 'a{x:calc(N + N)}', '@page :A{x:y}', '@import "A";',
+               '@namespace A "A";', 'a[A=A]{x:y}', 'a:A{x:y}', 'a:nth-child(Nn+N){x:y}', '@variables{A:N}a{x:var(A)}']
+
+
+def _codec_names():
+    import encodings.aliases
+
+    names = sorted(set(encodings.aliases.aliases.values()))
+    return names + ['utf-8-sig', 'css', 'bogus', '', 'UTF-8', 'utf_8', 'x-unknown', 'unicode_escape', 'raw_unicode_escape', 'idna', 'punycode', 'undefined', 'mbcs', 'oem']
+
+
+def _codec_case(res, name, form):
+    """form: 'rule-text' | 'rule-bytes' | 'arg-text' | 'arg-bytes'.  Text input always gives a DOM that serialises and reparses;
+    byte input (and an encoding argument) may be answered with UnicodeError / LookupError, nothing else."""
+    guard.pristine()
+    res.evaluations += 1
+    res.nontrivial += 1
+    res.clauses['C01.codecs'] += 1
+    case = {'kind': 'codec', 'name': name, 'form': form}
+    body = 'a{x:"\xe9";y:z}'
+    try:
+        with guard.watchdog(5):
+            with guard.collect_log():
+                if form == 'rule-text':
+                    dom = cssutils.parseString('@charset "%s";%s' % (name, body))
+                elif form == 'rule-bytes':
+                    dom = cssutils.parseString(('@charset "%s";a{y:z}' % name).encode('ascii'))
+                elif form == 'arg-text':
+                    dom = cssutils.parseString(body, encoding=name)
+                else:
+                    dom = cssutils.parseString(b'a{y:z}', encoding=name)
+                t = dom.cssText
+                if not isinstance(t, bytes):
+                    res.violation('C01.returns', 'cssText-not-bytes|codec', case, 'bytes', type(t).__name__)
+                    return
+                enc = dom.encoding
+                # (bytes in an encoding that is not ASCII-compatible, e.g. EBCDIC, do not describe themselves: decoded by name)
+                dom2 = cssutils.parseString(t.decode(enc))
+                dom2.cssText
+        res.outcomes.add(h64(('codec-ok', form, enc == 'utf-8')))
+    except guard.Timeout:
+        res.violation('C01.terminates', 'timeout@codec', case, 'answer within 5 s', 'watchdog expired')
+    except (UnicodeError, LookupError) as e:
+        res.outcomes.add(h64(('codec-refused', form, type(e).__name__)))
+        if form == 'rule-text':
+            res.violation('C01.noraise', f'{type(e).__name__}@text-with-charset-rule|{guard.crash_site(e).split("@")[-1]}', case, 'a DOM', repr(e)[:200])
+    except ValueError as e:
+        if name.lower() == 'css' and form != 'rule-text':
+            res.outcomes.add(h64(('codec-refused', form, 'ValueError:css')))  # the codec's own name: ValueError is pinned by test_codec
+        else:
+            res.violation('C01.noraise', f'{guard.crash_site(e)}@codec-{form}', case, 'no exception', repr(e)[:300])
+    except Exception as e:
+        res.violation('C01.noraise', f'{guard.crash_site(e)}@codec-{form}', case, 'no exception (UnicodeError / LookupError for byte input or an encoding argument)', repr(e)[:300])
+
+
 # ---------------- (c) fetcher graphs
 
 ANSWERS = ['text', 'bytes', 'none', 'nonepair', 'raises-oserror']
@@ -363,6 +422,8 @@ def plan(tier):
                 shards.append(('a-core4', [t + '\x00' + t2, 4]))
     for pi in range(len(BPREFIX)):
         shards.append(('b', pi))
+    shards.append(('b2', None))
+    shards.append(('d-long', None))
     shards.append(('c', None))
     nest_sizes = list(range(1, (14 if q else 24) + 1))
     flat_sizes = [1, 2, 3, 4, 6, 8, 12, 16, 24, 32, 48, 64] + ([] if q else [96, 128, 192, 256])
@@ -390,6 +451,19 @@ def run_shard(shard, tier, seed):
                 check_text(res, text, ci, CONFIGS[0], {'kind': 'text', 'text': text, 'context': ci, 'config': list(CONFIGS[0])})
     elif kind == 'b':
         _bytes_shard(res, arg)
+    elif kind == 'd-long':
+        # single tokens of great length (limits of the number conversions, regular expressions on long runs)
+        for n in (100, 1000, 4300, 4301, 5000, 20000):
+            for k, t in enumerate(LONG_TOKENS):
+                text = t.replace('N', '1' * n).replace('A', 'a' * n).replace('Z', '0' * n).replace('E', str(n))
+                check_text(res, text, 0, CONFIGS[0], {'kind': 'text', 'text': text, 'context': 0, 'config': list(CONFIGS[0])})
+                if k < 4:
+                    check_text(res, text, 0, CONFIGS[1], {'kind': 'text', 'text': text, 'context': 0, 'config': list(CONFIGS[1])})
+    elif kind == 'b2':
+        for name in _codec_names():
+            for form in ('rule-text', 'rule-bytes', 'arg-text', 'arg-bytes'):
+                _codec_case(res, name, form)
+        res.sample({'kind': 'codec', 'name': 'latin_1', 'form': 'rule-text'})
     elif kind == 'c':
         _graphs(res)
     elif kind == 'd-nest':
@@ -410,6 +484,8 @@ def replay(case, tier, seed):
         check_text(res, case['text'], case['context'], tuple(case['config']), case)
     elif k == 'bytes':
         _bytes_case(res, bytes.fromhex(case['bytes']), case['encoding'], case['entry'])
+    elif k == 'codec':
+        _codec_case(res, case['name'], case['form'])
     elif k == 'graph':
         _graph_case(res, case['n'], [tuple(e) for e in case['edges']], case['answer'], case)
     elif k == 'family':
